@@ -211,7 +211,6 @@ func (w *WrapPP) GetEarlyBeanReference(c any, name string) (any, error) {
 	return c, nil
 }
 
-
 // PlainWrapPP substitutes around initialization only and is NOT instantiation-aware: it implements just
 // PostProcessBeforeInitialization / PostProcessAfterInitialization (no early-reference callback at all).
 type PlainWrapPP struct {
